@@ -13,7 +13,8 @@ applies=yes
 if ! git -C $wt apply $patch 2>/dev/null; then
   if git -C $wt apply --3way $patch >/dev/null 2>&1 && ! grep -rq '^<<<<<<<' $wt --include=*.go; then applies=3way; else applies=no; fi
 fi
-dest=$(grep -oE '[a-zA-Z0-9_/.-]+/zz_[a-zA-Z0-9_]*_test\.go|[a-zA-Z0-9_/.-]+_test\.go' $sd/README.md | grep -v '^out/' | grep '/' | head -1)
+dest=$(grep -m1 '^DEST:' $sd/README.md | sed 's/^DEST:[ ]*//' | tr -d '`' | awk '{print $1}')
+[ -z "$dest" ] && dest=$(grep -oE '[a-zA-Z0-9_/.-]+/zz_[a-zA-Z0-9_]*_test\.go|[a-zA-Z0-9_/.-]+_test\.go' $sd/README.md | grep -v '^out/' | grep '/' | head -1)
 pkgdir=$(dirname "$dest")
 res_build=skip; res_exist=skip; res_demo_with=skip; res_demo_without=skip
 if [ $applies != no ] && [ -n "$dest" ] && [ -d "$wt/$pkgdir" ]; then
